@@ -264,6 +264,63 @@ def judge_same_name(c):
     return out
 
 
+# ---- several simulators started from ONE sim_config entry ----------------------------------------
+def shared_entry_cases():
+    out = []
+    for cfgv in ("2", "2.2", "2.10", "3.0", "3.1"):
+        for second in ("1", "2", "2.1", "2.2", "2.10", "3.0", "3.1", None):
+            for n_before in (1, 2):
+                for tr in ("local", "mem"):
+                    out.append(dict(cfgv=cfgv, second=second, n_before=n_before, transport=tr))
+    return out
+
+
+def judge_shared_entry(c):
+    """`n_before` simulators announcing exactly the configured version are started from the entry
+    (accepted), then one more announcing `second`: rejected iff it differs from the configured one
+    (versions that differ only by a trailing .0 are not asserted either way)"""
+    def sim(i, v):
+        old = vlist(v) < [3]
+        return dict(sid=f"S{i}", type="time-based", step=1, cls="Ver_kw_opt" if old else "Ver_tr_a3",
+                    api_version=v, omit_type=False, cfg_version=c["cfgv"], entry="Shared")
+    sims = [sim(i, c["cfgv"]) for i in range(c["n_before"])] + [sim(c["n_before"], c["second"])]
+    run = Run(dict(until=2, sims=sims, conns=[]), dict(gates=(), transport=c["transport"]), None)
+    with contextlib.redirect_stdout(io.StringIO()):
+        res = run.execute()
+    out = []
+
+    def add(kind, msg):
+        out.append(dict(prop="C15", kind=kind, cls=None, msg=f"{msg}: {c}", case=dict(c, shared_entry=True)))
+    started = sorted({e[1] for e in run.trace if e[0] == "I"})
+    a, b = vlist(c["second"]), vlist(c["cfgv"])
+    while a and a[-1] == 0:
+        a = a[:-1]
+    while b and b[-1] == 0:
+        b = b[:-1]
+    same = vlist(c["second"]) == vlist(c["cfgv"])
+    if same:
+        if res[0] != "ok":
+            add("wrongly-rejected", f"all simulators announce the configured version, run -> {res[:3]}")
+    elif a == b:
+        pass
+    else:
+        if res[0] != "build-exc":
+            add("not-rejected", f"simulator no. {c['n_before'] + 1} started from the entry announces "
+                                f"{c['second']!r}, the entry is configured for {c['cfgv']!r}: expected "
+                                f"rejection, run -> {res[:2]}")
+        elif res[1] != "ScenarioError":
+            add("rejected-with-wrong-error", f"expected ScenarioError but got {res[1:]}")
+    return out
+
+
+def _shared_entry_work(c):
+    try:
+        return dict(viol=judge_shared_entry(c))
+    except Exception as e:  # noqa: BLE001
+        import traceback
+        return dict(error=repr(e)[:200] + traceback.format_exc()[-700:])
+
+
 # ---- same scheduling and data as a current-version simulator --------------------------------
 def view_jobs():
     jobs = []
@@ -330,6 +387,11 @@ def replay(doc):
         for x in v:
             print("REPRODUCED", x["kind"], x["msg"][:400])
         return 1 if v else 0
+    if c.pop("shared_entry", None):
+        v = judge_shared_entry(c)
+        for x in v:
+            print("REPRODUCED", x["kind"], x["msg"][:400])
+        return 1 if v else 0
     if c.pop("same_name", None):
         v = judge_same_name(c)
         for x in v:
@@ -382,6 +444,15 @@ def check(prop, tier):
                 return 2
             tot["n"] += 1
             tot["accepted"] += 1
+            for v in res["viol"]:
+                kinds[v["kind"]] = kinds.get(v["kind"], 0) + 1
+                if kinds[v["kind"]] <= 5:
+                    rep.report(v, dict(kind="call", module="mc.enum_c15", case=v["case"]))
+        for res in pool.imap_unordered(_shared_entry_work, shared_entry_cases(), chunksize=4):
+            if res.get("error"):
+                print("MACHINERY-ERROR", res["error"])
+                return 2
+            tot["n"] += 1
             for v in res["viol"]:
                 kinds[v["kind"]] = kinds.get(v["kind"], 0) + 1
                 if kinds[v["kind"]] <= 5:
